@@ -190,7 +190,19 @@ def oracle_c02(d, case):
             counters["inconclusive_iteration_budget"] += 1
         else:
             findings.append((f"traversal aborted with {kind}", outcome["exception"]["message"] + outcome["exception"].get("trace", "")[-800:]))
+    budget_hits = [w for w, e in outcome["worker_errors"].items() if e["type"] == "IterationBudget"]
+    if budget_hits:
+        # runaway iteration: a livelock if no test is running (nothing can change any more), otherwise just a big workload
+        in_flight = [e for e in d.execs if e["t1"] is None]
+        recent_execs = [e for e in d.execs if e["t0"] >= outcome["vtime"] - 1e-9]
+        if not in_flight:
+            findings.append(("livelock: workers keep iterating although no test is running",
+                             f"workers {budget_hits} exceeded the iteration budget at t={outcome['vtime']} with {len(d.execs)} executions so far"))
+        else:
+            counters["inconclusive_iteration_budget"] += 1
     for worker, error in outcome["worker_errors"].items():
+        if error["type"] == "IterationBudget":
+            continue
         if expected_error and error["type"] in expected_error:
             counters["expected_rejections"] += 1
             continue
